@@ -10,6 +10,8 @@ DRIVER_SOURCES = {
     "drv_api_ledger": {"src": ["harness/drv_api.c", "harness/ledger.c"] + COMMON, "cflags": ["-DLEDGER"]},
 }
 
+NOISE_NOTE = ("; odd-numbered shards run with a noise thread: a second thread that keeps decoding / reconstructing / querying through the "
+              "instance and stripe under test and through its own instances of several backends, so that the oracles also see results that depend on what other threads do")
 TRUST = ["compiler sanitizers (ASan/UBSan) observe only executed paths",
          "reference models in ref/ are validated against Python-generated KATs and in-the-wild golden headers (ref/selftest.c)"]
 
@@ -18,18 +20,18 @@ def codec(prop, level, rule, flavours=("asan",), modes=(None,), **kw):
     runs = []
     for fl in flavours:
         for mo in modes:
-            r = {"name": "%s%s" % (fl, "-" + mo if mo else ""), "flavour": fl, "driver": "drv_codec", "args": []}
+            r = {"name": "%s%s" % (fl, "-" + mo if mo else ""), "flavour": fl, "driver": "drv_codec", "args": [], "noise": True}
             if mo:
                 r["args"] += ["--mode", mo]
             runs.append(r)
-    d = {"level": level, "runs": runs, "rule": rule, "assumptions": TRUST}
+    d = {"level": level, "runs": runs, "rule": rule + NOISE_NOTE, "assumptions": TRUST}
     d.update(kw)
     return d
 
 
 def fmt(prop, rule, flavours=("asan",), **kw):
-    d = {"level": "exploration", "rule": rule, "assumptions": TRUST,
-         "runs": [{"name": fl, "flavour": fl, "driver": "drv_format", "args": []} for fl in flavours]}
+    d = {"level": "exploration", "rule": rule + NOISE_NOTE, "assumptions": TRUST,
+         "runs": [{"name": fl, "flavour": fl, "driver": "drv_format", "args": [], "noise": True} for fl in flavours]}
     d.update(kw)
     return d
 
